@@ -9,7 +9,11 @@ PLAN["C16"] = [{"world": "raft", "share": 1, "probes": [
     # membership part
     "re-add-removed", "dup-id", "dup-name", "dup-address", "dup-peerid", "remove-unknown", "remove-already-removed",
     "remove-healthy-loses-quorum", "remove-healthy-keeps-quorum", "remove-unhealthy", "add-ok", "add-while-unhealthy",
-    "member-added", "member-removed", "sweep"]}]
+    "member-added", "member-removed", "sweep",
+    # lagging replica
+    "replica-applied-conf-change", "replica-missed-conf-change", "follower-missed-add", "follower-missed-remove",
+    "follower-missed-add-and-remove", "follower-same-members-stale-removed-set", "follower-recovered-from-snapshot",
+    "follower-snapshot-nothing-new", "replica-re-add-removed", "replica-remove-unknown", "replica-sweep"]}]
 
 LEVEL["C16"] = "fault_enumeration"
 
@@ -22,7 +26,7 @@ RULES["C16"] = (
     "then the operation is completed; a further ~18% of the operations crash at one unit and the history continues from what the crash left; "
     "or (B, 30%) a history of 6-28 (thorough 10-60) membership steps against a real raftv2.Cluster of 1-5 initial members whose raft server reads a fake raft.Node status: health-vector changes (healthy / probing / snapshotting / lagging / exactly at the slow-node gap, per follower), "
     "add and remove requests whose id, name, address and peer id are drawn from pools shared with current and removed members, through three real decision paths (validateChangeMembership+isEnableChangeMembership, makeProposal+isEnableChangeMembership, raftServer.ValidateConfChangeEntry), accepted requests applied through the real addMember/removeMember so that removed-then-re-added histories occur, "
-    "and `sweep` steps that enumerate at the current composition ALL 3^(followers<=4) health vectors x all removal targets (members, removed, unknown) and all combinations of fresh/duplicated id x name x address x peer id of an addition. "
+    "a second real Cluster (a lagging replica of the same raft cluster) that is handed every conf change the leader applied except those a step marks as missed (partition) and applies them the way a node applies a committed entry (ValidateConfChangeEntry, then addMember/removeMember; refused entries are skipped), `snapshot` steps in which the leader builds snapshot data with the real createSnapshotData and the replica runs the real Cluster.Recover, `fadd`/`frm` steps (stale or replayed conf change entries judged by the replica alone, through ValidateConfChangeEntry and validateChangeMembership), and `sweep` steps that enumerate at the current composition ALL 3^(followers<=4) health vectors x all removal targets (members, removed, unknown) and all combinations of fresh/duplicated id x name x address x peer id of an addition. "
     "distinct = distinct (last index, #entries, hard state, snapshot?, identity?) digests after each WAL operation, resp. distinct (composition, removed set, health vector, request, decision) digests; "
     "non-trivial = the run contained a restart, a crash or an unhealthy member (every WAL run restarts). "
     "Oracle A: a reference log (entries by index, last index, block->index of the latest store, hard state, snapshot, identity); after every acknowledged operation, on the same instance and after restart, "
@@ -30,7 +34,7 @@ RULES["C16"] = (
     "GetHardState, GetSnapshot, GetIdentity, HasWal and WalDB.ReadAll(GetSnapshot()) equal the model; after a crash inside an operation the disk equals model-before or the model after a prefix of the operation's unit-atomic parts in the legal order (entries, then hard state); "
     "inside ClearWAL/ResetWAL only: HasWal reports a valid log only if nothing of it is gone. "
     "Oracle B: the predicate of the property text written independently: must refuse re-adding a removed id, a duplicate id/name/address/peer id of a current member, removing a non-member, removing a healthy member when healthy-1 < (n-1)/2+1; must accept every other well-formed request "
-    "(an addition while a member is unhealthy and an addition reusing attributes of a removed member under a new id are not judged).")
+    "(an addition while a member is unhealthy and an addition reusing attributes of a removed member under a new id are not judged). The replica is judged by the same predicate against its OWN applied history; after every snapshot its members, applied members, removed members and IsIDRemoved must equal the leader's, and a validation-only sweep (every removal target, additions under every current/removed/fresh id with fresh or singly duplicated attributes, both entry points) runs on it.")
 
 REALSTUB["C16"] = {
     "real": ["chain.ChainDB raft methods (chain/chaindbForRaft.go) incl. Init/loadChainData on reopen, addBlock/GetBlock",
@@ -38,6 +42,7 @@ REALSTUB["C16"] = {
              "consensus.WalEntry / RaftIdentity / SnapshotData encodings, types/dbkey raft keys",
              "raftv2.Cluster: validateChangeMembership, isEnableChangeMembership, makeProposal, makeConfChange, addMember, removeMember, Members",
              "raftv2.raftServer: Status, GetClusterProgress (health classification), ValidateConfChangeEntry",
+             "raftv2.ChainSnapshotter.createSnapshotData, consensus.SnapshotData encoding, raftv2.Cluster.Recover / isAllMembersEqual / ResetMembers / IsIDRemoved",
              "etcd raft.MemoryStorage (leader's last index), raftpb encodings"],
     "stub": ["disk: simdisk (aergo-lib db.DB) with write-unit journal, bulk chunking, crash points and torn bulk chunks",
              "raft.Node: a fake whose Status() reports the chosen Progress per member (etcd raft consensus itself is not simulated)",
@@ -46,7 +51,7 @@ REALSTUB["C16"] = {
 
 MAN["C16"] = {
     "text": "seeded search over histories of the real raft WAL operations (overlapping append batches, hard state, snapshot, identity, clear, reset) on a simulated disk with a restart after every operation and a crash at every write unit of sampled operations, compared read-by-read with a reference log; "
-            "plus the real cluster membership validation against generated request histories and exhaustive sweeps over all health vectors and attribute-duplicate combinations for compositions up to 5 nodes, compared with the predicate of the property text.",
+            "plus the real cluster membership validation against generated request histories and exhaustive sweeps over all health vectors and attribute-duplicate combinations for compositions up to 5 nodes, compared with the predicate of the property text; a second real cluster instance lags behind the leader (misses generated subsets of the conf changes), catches up through real snapshots (createSnapshotData -> Cluster.Recover) and must then hold the leader's member sets and refuse what the leader refuses.",
     "ref": "5 C16",
     "note": "trusted: the reference log and the membership predicate (written from the property text), simdisk's write-unit semantics (transaction atomic, bulk chunked, torn chunk prefix), the fake raft status; etcd-raft consensus and rafthttp are not simulated; "
             "WriteSnapshot does not compact or truncate the log and the model follows that (entries stay the most recently stored ones); sampling plus bounded enumeration, not proof",
